@@ -405,10 +405,12 @@ class Group:
     def close(self):
         impl.drop_module(self.env["module"])
 
-    def observe(self, direction, ri, x):
-        """run the implementation end to end; returns ('ok', obj) | ('raise', kind)"""
+    def observe(self, direction, ri, x, clear=True):
+        """run the implementation end to end; returns ('ok', obj) | ('raise', kind).  clear=False: keep every cache
+        warm (the warm-replay pass: one call of a history)"""
         from typelib import marshals, unmarshals
-        impl.clear_caches()
+        if clear:
+            impl.clear_caches()
         t = self.pytys[ri]
         try:
             with warnings.catch_warnings():
@@ -430,6 +432,9 @@ class Group:
     def add(self, direction, ri, x):
         enc_in = self.reg.enc(x)
         obs = self.observe(direction, ri, x)
+        if not hasattr(self, "raw"):
+            self.raw = []
+        self.raw.append((direction, ri, x, obs))
         impl.clear_caches()
         self.mirror.depth = 0
         self.mirror.max_depth = self.fuel
@@ -554,14 +559,181 @@ class Group:
         )
 
 
+# ----------------------------------------------------------------------------------
+# warm replay: every property quantifies over every CALL, whatever ran before it.  The model is stateless, so
+# the cases of a group are run once more in one process WITHOUT clearing any cache (forwards, then backwards) and
+# each outcome must be the outcome of the same call made cold.  Groups in which two distinct annotation objects
+# are == but spelled with another member order are skipped: that is the listed finding KF-C12-union-order.
+# ----------------------------------------------------------------------------------
+
+def _annotations_of(t, seen, out, depth=0):
+    import typing
+    if depth > 12 or id(t) in seen:
+        return
+    seen.add(id(t))
+    out.append(t)
+    for a in typing.get_args(t):
+        if not isinstance(a, (str, int, bytes, bool, type(None), type(Ellipsis))) or isinstance(a, type):
+            _annotations_of(a, seen, out, depth + 1)
+    for attr in ("__value__", "__supertype__"):
+        v = getattr(t, attr, None)
+        if v is not None and not isinstance(v, str):
+            _annotations_of(v, seen, out, depth + 1)
+    if isinstance(t, type) and getattr(t, "__module__", "").startswith("verif_"):
+        try:
+            hints = typing.get_type_hints(t)
+        except Exception:
+            hints = getattr(t, "__annotations__", {}) or {}
+        for h in hints.values():
+            if not isinstance(h, str):
+                _annotations_of(h, seen, out, depth + 1)
+
+
+def union_spelling_collision(pytys) -> bool:
+    """two union annotations of the group compare == (typing ignores member order) but list their members in
+    another order: caches keyed by == serve the first spelling's routine to the second (KF-C12-union-order)"""
+    import typing
+    import types as _types
+    anns, seen = [], set()
+    for t in pytys:
+        if not isinstance(t, str):
+            _annotations_of(t, seen, anns)
+    unions = [a for a in anns if typing.get_origin(a) in (typing.Union, _types.UnionType)]
+    for i, a in enumerate(unions):
+        for b in unions[i + 1:]:
+            try:
+                if a == b and typing.get_args(a) != typing.get_args(b):
+                    return True
+            except Exception:
+                pass
+    return False
+
+
+def _value_src(x) -> str:
+    import re
+    return re.sub(r"<(\w+)\.(\w+): [^>]*>", r"\1.\2", repr(x))
+
+
+def warm_pass(groups, same, max_fail=6):
+    """returns (calls made, failures, skipped groups); a failure is a self-contained replay payload"""
+    calls, fails, skipped = 0, [], 0
+
+    def agree(a, b):
+        if a[0] != b[0]:
+            return False
+        return same(a[1], b[1]) if a[0] == "ok" else a[1] == b[1]
+
+    for g in groups:
+        raw = getattr(g, "raw", None)
+        if not raw:
+            continue
+        import inspect
+        if "clear" not in inspect.signature(g.observe).parameters:      # a property's own Group subclass with its own observe()
+            skipped += 1
+            continue
+        if union_spelling_collision(g.pytys):
+            skipped += 1
+            continue
+        order = list(range(len(raw))) + list(reversed(range(len(raw))))
+        impl.clear_caches()
+        hist, bad = [], None
+        for idx in order:
+            d, ri, x, cold = raw[idx]
+            warm = g.observe(d, ri, x, clear=False)
+            calls += 1
+            hist.append(idx)
+            if not agree(cold, warm):
+                bad = (idx, cold, warm)
+                break
+        if bad is None:
+            continue
+        idx, cold, warm = bad
+        # shrink: one earlier call that is enough?
+        short = None
+        for j in dict.fromkeys(hist[:-1]):
+            impl.clear_caches()
+            g.observe(raw[j][0], raw[j][1], raw[j][2], clear=False)
+            w2 = g.observe(raw[idx][0], raw[idx][1], raw[idx][2], clear=False)
+            calls += 2
+            if not agree(cold, w2):
+                short, warm = [j, idx], w2
+                break
+        steps = short or hist
+        fails.append({
+            "kind": "warm-history", "key": f"warm|{g.env['module']}|{raw[idx][0]}|{raw[idx][1]}",
+            "symptom": "a call gives another outcome after earlier calls in the same process than it gives cold "
+                       "(caches cleared only before the first call of the history)",
+            "env": {"module": g.env["module"], "defs": {str(k): v for k, v in g.env["defs"].items()}},
+            "roots": list(g.roots), "ref_depth": getattr(g, "ref_depth", 0),
+            "history": [{"dir": raw[k][0], "ri": raw[k][1], "type": repr(g.pytys[raw[k][1]]), "input": _value_src(raw[k][2])}
+                        for k in steps],
+            "cold": repr(cold[1])[:400] if cold[0] == "ok" else cold[1],
+            "warm": repr(warm[1])[:400] if warm[0] == "ok" else warm[1],
+            "module_source": getattr(g, "source", None),
+        })
+        if len(fails) >= max_fail:
+            break
+    impl.clear_caches()
+    return calls, fails, skipped
+
+
+def replay_warm(payload, same):
+    """re-run a warm-history payload: the last call cold vs after the history"""
+    def _tup(x):
+        if isinstance(x, list):
+            return tuple(_tup(y) for y in x) if (x and isinstance(x[0], str)) else [_tup(y) for y in x]
+        return x
+    env = {"module": payload["env"]["module"] + "_replay",
+           "defs": {(int(k) if k.isdigit() else k): _tup(v) for k, v in payload["env"]["defs"].items()}}
+    import coreprop
+    g = Group(env, [_tup(r) for r in payload["roots"]], coreprop.suppressed())
+    g.ref_depth = payload.get("ref_depth", 0)
+    try:
+        ns = dict(g.mod.__dict__)
+        exec("from decimal import Decimal\nfrom fractions import Fraction\nfrom uuid import UUID\nimport datetime\n"
+             "from pathlib import *\nfrom collections import *", ns)
+        steps = []
+        for h in payload["history"]:
+            try:
+                steps.append((h["dir"], h["ri"], eval(h["input"], ns)))
+            except Exception as e:
+                return {"fails": False, "note": f"input cannot be rebuilt from its repr: {e!r}"}
+        d, ri, x = steps[-1]
+        cold = g.observe(d, ri, x)
+        impl.clear_caches()
+        warm = None
+        for d2, ri2, x2 in steps:
+            warm = g.observe(d2, ri2, x2, clear=False)
+        ok = cold[0] == warm[0] and (same(cold[1], warm[1]) if cold[0] == "ok" else cold[1] == warm[1])
+        return {"fails": not ok, "cold": repr(cold)[:300], "after_history": repr(warm)[:300]}
+    finally:
+        g.close()
+
+
 HEADER = ("From Coq Require Import List. Import ListNotations.\n"
           "Require Import TL.Model.Core TL.Model.CoreTables.\n")
 HEADER_MECH = HEADER + "Require Import TL.Model.Build TL.Model.BuildTables.\n"
 
 
+def warm_replay(run, groups, tag):
+    """the warm-replay pass as a correspondence layer of this run (see warm_pass)"""
+    import coreprop
+    import time
+    t0 = time.time()
+    calls, fails, skipped = warm_pass(groups, coreprop.same)
+    run.record_corr(f"warm-replay[{tag}](every case again without clearing caches, forwards then backwards, vs its cold outcome)",
+                    calls, [{k: v for k, v in f.items() if k not in ("env", "module_source")} for f in fails],
+                    dist={"groups": len(groups), "groups_skipped_for_union_spelling_collision": skipped,
+                          "seconds": round(time.time() - t0, 1)})
+    if not hasattr(run, "tie_failures"):
+        run.tie_failures = []
+    run.tie_failures += fails
+
+
 def evaluate_groups_mech(run, groups, tag, per_file=10, strict=False):
     """Evaluate spec AND mechanism; returns (bad_spec, bad_mech, bad_agree) lists of (group, case index)."""
     import lib
+    warm_replay(run, groups, tag)
     files, order = {}, []
     for fi in range(0, len(groups), per_file):
         chunk = groups[fi:fi + per_file]
@@ -600,6 +772,7 @@ def evaluate_groups_mech(run, groups, tag, per_file=10, strict=False):
 
 def evaluate_groups(run, groups, tag, per_file=12, strict=False):
     """Evaluate all groups in Coq; returns list of (group, case index) mismatches."""
+    warm_replay(run, groups, tag)
     files, order = {}, []
     for fi in range(0, len(groups), per_file):
         chunk = groups[fi:fi + per_file]
